@@ -134,15 +134,9 @@ use self::im_set::HashSet;
 // ---- vehicle_to_json ------------------------------------------------------------------------------------
 //@item solution/src/json_serialisation.rs fn vehicle_to_json
 //@retname r
+//@add-ufcs
 //@sig
-    requires
-        // the vehicle is a real vehicle of the schedule with a well-formed real tour (C10 clause 1)
-        schedule.tours@.contains_key(vehicle_idx),
-        real_tour(&schedule.network, &schedule.tours@[vehicle_idx]),
-        // A-depots: both depot nodes of the tour belong to depots of the network's depot table
-        schedule.network.depots@.contains_key(sp_depot_idx(&schedule.network, schedule.tours@[vehicle_idx].nodes@[0])),
-        schedule.network.depots@.contains_key(sp_depot_idx(&schedule.network, schedule.tours@[vehicle_idx].nodes@[schedule.tours@[vehicle_idx].nodes@.len() - 1])),
-        legs_schedulable(&schedule.network, schedule.tours@[vehicle_idx].nodes@),
+    requires vehicle_ok(schedule, vehicle_idx),
     ensures
         vehicle_json_ids(&schedule.network, vehicle_idx, schedule.tours@[vehicle_idx].nodes@, &r), // @obl C03.vehicle_to_json.id_and_depots
         segments_ok(&schedule.network, schedule.tours@[vehicle_idx].nodes@, r.departure_segments@), // @obl C03.vehicle_to_json.departure_segments_are_the_service_nodes
@@ -150,7 +144,7 @@ use self::im_set::HashSet;
         dhts_ok(&schedule.network, schedule.tours@[vehicle_idx].nodes@, schedule.tours@[vehicle_idx].nodes@.len() - 1, r.dead_head_trips@), // @obl C03.vehicle_to_json.dead_head_trips_are_the_location_changes
         dht_list_grown(vehicle_idx, old(dead_head_trips_with_formation)@, r.dead_head_trips@, final(dead_head_trips_with_formation)@), // @obl C03.vehicle_to_json.fleet_list_grows_by_these_trips
 //@first
-        broadcast use axiom_to_string_string, axiom_to_string_i32, axiom_to_string_vehicle_idx;
+        broadcast use group_text;
         let ghost net = &schedule.network;
         let ghost tour = &schedule.tours@[vehicle_idx];
         let ghost nodes = schedule.tours@[vehicle_idx].nodes@;
@@ -165,9 +159,7 @@ use self::im_set::HashSet;
             net == &schedule.network,
             nodes == schedule.tours@[vehicle_idx].nodes@,
             tour == &schedule.tours@[vehicle_idx],
-            schedule.tours@.contains_key(vehicle_idx),
-            real_tour(net, tour),
-            legs_schedulable(net, nodes),
+            vehicle_ok(schedule, vehicle_idx),
             it.snapshot@@.len() == nodes.len() - 1,
             forall|k: int| 0 <= k < it.snapshot@@.len() ==> #[trigger] it.snapshot@@[k] == (nodes[k], nodes[k + 1]),
             0 <= it.index@ <= it.snapshot@@.len(),
@@ -176,7 +168,14 @@ use self::im_set::HashSet;
             slots_ok(net, nodes.subrange(0, it.index@ + 1), maintenance_slots@),
             dhts_ok(net, nodes, it.index@ as int, dead_head_trips@),
             dht_list_grown(vehicle_idx, dht0, dead_head_trips@, dead_head_trips_with_formation@),
+//@before "for (node1_idx, node2_idx)"
+        proof {
+            // the first node is a start depot: nothing is listed for it
+            lemma_nodes_in_step(net, nodes, 0);
+            assert(nodes.subrange(0, 0) =~= Seq::<NodeIdx>::empty());
+        }
 //@before "let node1 ="
+            broadcast use group_text;
             proof {
                 let k = it.index@ as int;
                 assert(it.snapshot@@[k] == (nodes[k], nodes[k + 1]));
@@ -188,8 +187,171 @@ use self::im_set::HashSet;
                 lemma_nodes_in_step(net, nodes, k + 1);
                 lemma_nodes_in_len(net, nodes.subrange(0, k + 1));
             }
+//@before "let (departure_time, arrival_time)"
+                assert(loc_change(net, nodes[it.index@ as int], nodes[it.index@ + 1]));
 //@after "let (departure_time, arrival_time)"
                 assert(in_gap(net, node1_idx, node2_idx, departure_time, arrival_time));
+//@after "dead_head_trips_with_formation.push"
+                proof {
+                    let k = it.index@ as int;
+                    let n = dead_head_trips@.len() - 1;
+                    assert(is_dht_entry(net, nodes[k], nodes[k + 1], n, &dead_head_trips@[n]));
+                    assert(change_legs(net, nodes, k + 1) == change_legs(net, nodes, k).push(k));
+                    assert(dhts_ok(net, nodes, k + 1, dead_head_trips@));
+                    assert(is_dht_copy(vehicle_idx, &dead_head_trips@[n], &dead_head_trips_with_formation@[dht0.len() + n]));
+                    assert(dht_list_grown(vehicle_idx, dht0, dead_head_trips@, dead_head_trips_with_formation@));
+                }
+//@before "match node2"
+            proof {
+                let k = it.index@ as int;
+                assert(change_legs(net, nodes, k + 1) == (if loc_change(net, nodes[k], nodes[k + 1]) { change_legs(net, nodes, k).push(k) } else { change_legs(net, nodes, k) }));
+                assert(dhts_ok(net, nodes, k + 1, dead_head_trips@));
+            }
+//@after "departure_segments.push"
+                proof {
+                    let k = it.index@ as int;
+                    let n = departure_segments@.len() - 1;
+                    assert(is_segment_entry(net, nodes[k + 1], &departure_segments@[n]));
+                    assert(segments_ok(net, nodes.subrange(0, k + 2), departure_segments@));
+                }
+//@after "maintenance_slots.push"
+                proof {
+                    let k = it.index@ as int;
+                    let n = maintenance_slots@.len() - 1;
+                    assert(is_slot_entry(net, nodes[k + 1], &maintenance_slots@[n]));
+                    assert(slots_ok(net, nodes.subrange(0, k + 2), maintenance_slots@));
+                }
+//@before "JsonVehicle {"
+        proof {
+            assert(nodes.subrange(0, nodes.len() as int) =~= nodes);
+        }
+//@end
+
+// ---- fleet_to_json ---------------------------------------------------------------------------------------
+/// A-iter: `Schedule::vehicles_iter` yields the sorted id list of the type (`self.vehicle_ids_grouped_and_sorted[&vt].iter().copied()`;
+/// indexing an im::HashMap with a missing key panics)
+//@item solution/src/schedule.rs Schedule::vehicles_iter : trusted
+//@ret SeqIter<VehicleIdx>
+//@retname r
+//@sig
+    requires self.vehicle_ids_grouped_and_sorted@.contains_key(vehicle_type),
+    ensures r@ == type_vehicles(self, vehicle_type),
+//@end
+//@item solution/src/schedule.rs Schedule::next_day_transition_of
+//@retname r
+//@sig
+    requires self.next_period_transitions@.contains_key(vehicle_type),
+    ensures *r == self.next_period_transitions@[vehicle_type],
+//@end
+/// A-iter: `Transition::cycles_iter` yields the cycles in order (`self.cycles.iter()`)
+//@item solution/src/transition.rs Transition::cycles_iter : trusted
+//@ret SeqIter<&TransitionCycle>
+//@retname r
+//@sig
+    ensures r@.len() == self.cycles@.len(), forall|i: int| 0 <= i < r@.len() ==> *(#[trigger] r@[i]) == self.cycles@[i],
+//@end
+/// A-iter: `TransitionCycle::iter` yields the vehicles of the cycle in order (`self.cycle.iter().copied()`)
+//@item solution/src/transition/transition_cycle.rs TransitionCycle::iter : trusted
+//@ret SeqIter<VehicleIdx>
+//@retname r
+//@sig
+    ensures r@ == self.cycle@,
+//@end
+//@item model/src/network.rs Network::vehicle_types
+//@retname r
+//@sig
+    ensures r == self.vehicle_types,
+//@end
+//@item model/src/vehicle_types.rs VehicleTypes::get : trusted
+//@retname r
+//@sig
+    ensures
+        self.vehicle_types@.contains_key(idx) ==> r is Some && r.unwrap() == self.vehicle_types@[idx],
+        !self.vehicle_types@.contains_key(idx) ==> r is None,
+//@end
+//@item model/src/vehicle_types.rs VehicleType::id
+//@retname r
+//@sig
+    ensures *r == self.id,
+//@end
+
+//@item solution/src/json_serialisation.rs fn fleet_to_json
+//@retname r
+//@sig
+    requires type_ok(schedule, vehicle_type),
+    ensures
+        r.vehicle_type@ == type_id(&schedule.network, vehicle_type), // @obl C03.fleet_to_json.vehicle_type_id
+        vehicles_listed(schedule, type_vehicles(schedule, vehicle_type), r.vehicles@), // @obl C03.fleet_to_json.every_vehicle_with_its_itinerary
+        cycles_listed(type_cycles(schedule, vehicle_type), r.vehicle_cycles@), // @obl C05.fleet_to_json.cycles_emitted_verbatim
+        fleet_dht_grown(type_vehicles(schedule, vehicle_type), r.vehicles@, old(dead_head_trips_with_formation)@, final(dead_head_trips_with_formation)@), // @obl C03.fleet_to_json.fleet_list_grows_by_the_vehicles_trips
+//@closure-params 0
+    VehicleIdx
+//@closure 0
+    -> (t: String) ensures t@ == vid_text(vehicle_id)
+//@first
+        broadcast use group_text;
+        let ghost vs = type_vehicles(schedule, vehicle_type);
+        let ghost cs = type_cycles(schedule, vehicle_type);
+        let ghost dht0 = dead_head_trips_with_formation@;
+//@loop "for vehicle_idx in"
+        invariant
+            type_ok(schedule, vehicle_type),
+            vs == type_vehicles(schedule, vehicle_type),
+            it.snapshot@@ == vs,
+            0 <= it.index@ <= vs.len(),
+            vehicles_listed(schedule, vs.subrange(0, it.index@ as int), vehicles@),
+            fleet_dht_grown(vs, vehicles@, dht0, dead_head_trips_with_formation@),
+//@before "vehicles.push"
+            let ghost veh1 = vehicles@;
+            let ghost dht1 = dead_head_trips_with_formation@;
+            proof { assert(vehicle_ok(schedule, vs[it.index@ as int])); }
+//@after "vehicles.push"
+            proof {
+                let k = it.index@ as int;
+                let x = vehicles@[k];
+                let dht2 = dead_head_trips_with_formation@;
+                assert(vehicles@ == veh1.push(x));
+                assert(vs.subrange(0, k + 1) =~= vs.subrange(0, k).push(vs[k]));
+                assert(is_vehicle_json(&schedule.network, vs[k], schedule.tours@[vs[k]].nodes@, &vehicles@[k]));
+                assert(dht_list_grown(vs[k], dht1, x.dead_head_trips@, dht2));
+                lemma_dht_total_prefix(vehicles@, veh1, k);
+                assert forall|i: int, j: int| 0 <= i < vehicles@.len() && 0 <= j < vehicles@[i].dead_head_trips@.len()
+                    implies is_dht_copy(vs[i], #[trigger] &vehicles@[i].dead_head_trips@[j], &dht2[dht0.len() + dht_total(vehicles@, i) + j]) by {
+                    lemma_dht_total_prefix(vehicles@, veh1, i);
+                    lemma_dht_total_mono(veh1, i, k);
+                    if i < k {
+                        lemma_dht_total_mono(veh1, i + 1, k);
+                        assert(is_dht_copy(vs[i], &veh1[i].dead_head_trips@[j], &dht1[dht0.len() + dht_total(veh1, i) + j]));
+                        assert(dht2[dht0.len() + dht_total(veh1, i) + j] == dht1[dht0.len() + dht_total(veh1, i) + j]);
+                    } else {
+                        assert(is_dht_copy(vs[k], &x.dead_head_trips@[j], &dht2[dht1.len() + j]));
+                    }
+                }
+                assert forall|i: int| 0 <= i < dht0.len() implies #[trigger] dht2[i] == dht0[i] by {
+                    lemma_dht_total_mono(veh1, 0, k);
+                    assert(dht2[i] == dht1[i]);
+                }
+            }
+//@loop "for transtion_cylce in"
+        invariant
+            cs == type_cycles(schedule, vehicle_type),
+            it.snapshot@@.len() == cs.len(),
+            forall|i: int| 0 <= i < cs.len() ==> *(#[trigger] it.snapshot@@[i]) == cs[i],
+            0 <= it.index@ <= cs.len(),
+            cycles_listed(cs.subrange(0, it.index@ as int), vehicle_cycles@),
+//@before "vehicle_cycles.push"
+            broadcast use group_text;
+//@after "vehicle_cycles.push"
+            proof {
+                let k = it.index@ as int;
+                assert(cs.subrange(0, k + 1) =~= cs.subrange(0, k).push(cs[k]));
+                assert(ids_listed(cs[k].cycle@, vehicle_cycles@[k]@));
+            }
+//@before "JsonFleet {"
+        proof {
+            assert(vs.subrange(0, vs.len() as int) =~= vs);
+            assert(cs.subrange(0, cs.len() as int) =~= cs);
+        }
 //@end
 
 } // mod tr
